@@ -272,8 +272,11 @@ func implAnswer(line string) (resp string) {
 func implWorkerMain() {
 	// a runaway recursion in the implementation (e.g. rendering a cyclic value
 	// without a cycle check) must die quickly, not after filling a 1 GB stack;
-	// jqawk's own call-depth limit (4096) needs far less than this
-	mb := 64
+	// jqawk's own call-depth limit (4096) needs far less than this. but the claim of C01 covers
+	// program texts up to 64 KiB, and 60 000 nested prefix operators need about 100 MB of Go
+	// stack to evaluate (the real binary, with Go's 1 GB default, runs them): 64 MB here was a
+	// false alarm of the harness
+	mb := 512
 	if v, err := strconv.Atoi(os.Getenv("VERIF_MAXSTACK_MB")); err == nil && v > 0 {
 		mb = v
 	}
